@@ -45,7 +45,9 @@ def mirror_pairs(tier):
     out = []
     dn_opts = dict(ny_inner_lower_divertor=3, ny_inner_upper_divertor=4, ny_outer_upper_divertor=5,
                    ny_outer_lower_divertor=3, psinorm_pf_lower=0.92, psinorm_pf_upper=0.88)
-    geoms = [("lsn", {}), ("ldn", dn_opts)]
+    # single null with a per-leg private-flux range: psinorm_pf_lower of the lower null maps to
+    # psinorm_pf_upper of its mirror image
+    geoms = [("lsn", dict(psinorm_pf_lower=0.93)), ("ldn", dn_opts)]
     if tier == "thorough":
         geoms += [("udn", dn_opts), ("cdn", dn_opts), ("udn2", dn_opts)]
     for g, o in geoms:
@@ -157,6 +159,14 @@ def int_map_mirror(nc_a, nc_b, double, a=None):
 def reversal_members():
     mk = lattice.mk
     out = {}
+    # disconnected double null with three inter-separatrix cells (the only radial segment with
+    # both end gradients prescribed), orthogonal
+    o3 = dict(nx_inter_sep=3)
+    out["ldn-orth-nx_inter_sep=3"] = dict(
+        base=mk("ldn", True, opt=o3),
+        sigma=mk("ldn", True, opt=o3, sigma=-1.0, tags=["sigma"]),
+        reverse_current=mk("ldn", True, opt=dict(o3, reverse_current=True), tags=["signs"]),
+    )
     for orth in (True, False):
         m = "orth" if orth else "nonorth"
         out[m] = dict(
@@ -186,6 +196,8 @@ def check_reversal(ctx, arts_by, stats):
         if not base.ok:
             continue
         for kind, rule in rules.items():
+            if kind not in d:
+                continue
             other = d[kind]
             if not other.ok:
                 if kind == "psi_divide_twopi":
